@@ -14,6 +14,7 @@ package plenccore
 //@   ensures[C18,C04] r1 > 0 ==> vterm(buf, r1)
 //@   localensures[C18] r1 > 0 ==> r0 == vsum(buf, r1)      # complete: what was read is what the bytes say
 //@   ensures[C18,C04] len(buf) == 0 ==> r1 == 0
+//@   ensures[C18,C13] r1 <= 0 ==> r0 == 0                  # nothing decoded: the value is zero, not garbage
 
 //@ func plenccore.ReadVarUint
 //@   safety C18 C04
@@ -23,6 +24,7 @@ package plenccore
 //@   ensures[C18,C04] n > 0 ==> vterm(data, n)
 //@   localensures[C18] n > 0 ==> v == vsum(data, n)
 //@   ensures[C18,C04] len(data) == 0 ==> n == 0
+//@   ensures[C18,C13] n <= 0 ==> v == 0                       # nothing decoded: the value is zero, not garbage
 
 //@ func plenccore.SizeVarUint
 //@   safety C18
